@@ -73,8 +73,6 @@ def amp_sum(spec, theta, n, d):
 
 
 def pcls(spec, d):
-    if spec == "HN":
-        return "HN"
     if R.contains(spec, "HN"):
         return "has-HN"
     return R.family(spec)
